@@ -99,6 +99,18 @@ def fall_tail(g="g", l="l", rise=60, step=1):
     ]
 
 
+# "deep roots": realistic longer programs used as the starting state of an exploration (states far from the empty sequence)
+DEEP_GL_EOM = GL + [
+    ("add", C52, "g"), ("target", "q1", "l"), ("add", C52P, "l", "min-delay"), ("phase_shift", 1.0, ("q0",), "digital"),
+    ("enable_eom", "g", 2.0, 1.0, -10.0, True), ("eom_pulse", "g", 52, 0.0, 0.0, "min-delay", False), ("delay", 30, "g"),
+    ("add", B100, "l", "wait-for-all"), ("align", ("g", "l"), True),
+]  # ends inside an open EOM block on g, after an at-rest alignment
+DEEP_GL_AFTER = DEEP_GL_EOM + [
+    ("eom_pulse", "g", 50, PI2, 0.0, "no-delay", True), ("disable_eom", "g", True), ("phase_shift", 1.0, ("q1",), "digital"), ("target", ["q0", "q1"], "l"), ("add", R60, "l"),
+    ("add", C50, "g", "no-delay"), ("phase_shift", -0.5, ("q0", "q1"), "ground-rydberg"),
+]  # EOM block closed with drift correction, multi-target local channel, pulses with pending fall on both channels
+
+
 def two_globals(a="g", b="h", basis="ground-rydberg"):
     """Two global channels on one basis (reusable device)."""
     return [
